@@ -282,7 +282,7 @@ func runOne(engine string, d rtDesc, shared wazero.CompilationCache, dir string,
 		// every call gets its own cancellable context, cancelled after the call returned (the usual
 		// "defer cancel()"): with close-on-context-done that must not touch the module any more
 		callCtx, cancelCall := context.WithCancel(cctx)
-		res, err := mod.ExportedFunction(fmt.Sprintf("f%d", st.fn)).Call(callCtx, uint64(uint32(st.arg)))
+		res, err := callContained(mod.ExportedFunction(fmt.Sprintf("f%d", st.fn)), callCtx, uint64(uint32(st.arg)))
 		cancelCall()
 		if err != nil && d.EnsureTerm && !mod.IsClosed() && waits < 2 {
 			// a watcher left behind by the failed call would now close the module: give it a moment
@@ -374,6 +374,17 @@ func runOne(engine string, d rtDesc, shared wazero.CompilationCache, dir string,
 	return trace, nil
 }
 
+// callContained: a Go panic leaving api.Function.Call becomes an error of its own kind in the trace (it
+// then differs from the baseline's line, or the baseline itself shows it)
+func callContained(f api.Function, ctx context.Context, args ...uint64) (res []uint64, err error) {
+	defer func() {
+		if r := recover(); r != nil {
+			err = fmt.Errorf("GO PANIC out of api.Function.Call: %v", r)
+		}
+	}()
+	return f.Call(ctx, args...)
+}
+
 func (c12) Run(t *tape.Tape, cfg sim.Config) (res sim.Result) {
 	o := plan.Opts{MinFuncs: 3, MaxFuncs: 8, MaxAtoms: 6, Host: true, Traps: true, Grow: true, Table: true, Segments: true, HostTags: 4, GRef: true, Wide: true}
 	focus := cfg.Class == "listener-sets-over-caches"
@@ -387,7 +398,12 @@ func (c12) Run(t *tape.Tape, cfg sim.Config) (res sim.Result) {
 	// with an empty one, after the last section or before the first
 	full := []byte{0, 8, 4, 'm', 'e', 't', 'a', 1, 2, 3}
 	empty := []byte{0, 5, 4, 'v', 'o', 'i', 'd'}
-	switch t.Choose(6) {
+	switch t.Choose(7) {
+	case 6:
+		// guest-chosen debug sections: rows without a file (read only when debug info is enabled and a
+		// stack trace is built)
+		bin = append(bin, wasmb.DegenerateDWARF()...)
+		res.Stat("probe.degenerate_dwarf_sections", 1)
 	case 1:
 		bin = append(bin, full...)
 	case 2:
